@@ -32,6 +32,19 @@ def shrink_text(text: str, pred, budget=None) -> str:
             break
         else:
             n = min(len(text), n * 2)
+    # exhaustive substring deletion for short strings (ddmin only tries aligned chunks)
+    improved = True
+    while improved and len(text) <= 64 and budget.n > 0:
+        improved = False
+        for size in range(len(text) - 1, 0, -1):
+            for i in range(0, len(text) - size + 1):
+                cand = text[:i] + text[i + size:]
+                if budget.spend() and pred(cand):
+                    text = cand
+                    improved = True
+                    break
+            if improved or budget.n <= 0:
+                break
     # character simplification: blanks -> single space removal handled by deletion; names -> 'a'
     for i, c in enumerate(text):
         if budget.n <= 0:
